@@ -16,10 +16,14 @@ def fresh_classes():
     from edgegraph.structure import singleton as sg
     sg.clear_true_singleton()
 
+    created = []           # every instance whose __init__ got past its checks, in that order (= the model's numbering)
+
     class Rec:
         def __init__(self, *args, **kwargs):
             if args and args[0] == 13:
                 raise ValueError("unlucky argument")         # a construction that fails
+            if not any(x is self for x in created):
+                created.append(self)
             d = self.__dict__
             d["inits"] = d.get("inits", 0) + 1
             d.setdefault("first", (args, dict(kwargs)))
@@ -32,6 +36,10 @@ def fresh_classes():
             return False
 
     class TC(Rec, metaclass=sg.TrueSingleton):
+        def __init__(self, *args, **kwargs):
+            Rec.__init__(self, *args, **kwargs)
+            TA(*ARGS[1][0], **ARGS[1][1])        # a singleton that needs another one (App() -> Config()): nested construction
+
         def __len__(self):              # an "empty container" singleton
             return 0
 
@@ -51,7 +59,7 @@ def fresh_classes():
     class SD(Rec, metaclass=M2):
         pass
 
-    return {"t": [None, TA, TB, TC], "s": [None, SA, SB, SC, SD]}
+    return {"t": [None, TA, TB, TC], "s": [None, SA, SB, SC, SD], "created": created}
 
 
 def arg_id(first):
@@ -62,11 +70,22 @@ def arg_id(first):
     return -1
 
 
+_HANGS = [0]
+
+
 def replay(events, NI):
     """events: list of {op, a}.  Returns the observed events."""
     from edgegraph.structure import singleton as sg
+    import signal
     C = fresh_classes()
-    objs = []          # instance number -> object (order of first appearance)
+    objs = C["created"]          # instance number -> object (order of creation, nested constructions included)
+
+    class Hang(Exception):
+        pass
+
+    def on_alarm(signum, frame):
+        raise Hang()
+    old_handler = signal.signal(signal.SIGALRM, on_alarm)
 
     def num(o):
         if o is None:
@@ -88,6 +107,9 @@ def replay(events, NI):
     for c in events:
         op, a = c["op"], c["a"]
         res = {"err": "", "inst": 0, "cls": 0, "kind": "", "out": []}
+        # a call that never returns (e.g. a non-reentrant lock around a nested construction): generous the first times,
+        # short once this worker process has seen calls hang (thousands of traces would otherwise wait in turn)
+        signal.alarm(10 if _HANGS[0] < 2 else 1)
         try:
             r = None
             if op == "tnew":
@@ -118,11 +140,18 @@ def replay(events, NI):
                 res["kind"], res["cls"] = cls_of(r)
         except Exception as exc:
             res["err"] = type(exc).__name__
+            if isinstance(exc, Hang):
+                _HANGS[0] += 1
+        finally:
+            signal.alarm(0)
         inits = [0] * NI
         args_ = [0] * NI
         for j, o in enumerate(objs[:NI]):
             inits[j] = getattr(o, "inits", 0)
             args_[j] = arg_id(getattr(o, "first", ((), {})))
         out.append({"c": c, "res": res, "inits": inits, "args": args_, "extra_objects": max(0, len(objs) - NI)})
+        if res["err"] == "Hang":
+            break               # whatever was blocked may still hold its lock: nothing after this point is meaningful
+    signal.signal(signal.SIGALRM, old_handler)
     sg.clear_true_singleton()
     return out
